@@ -3,7 +3,7 @@
 From Coq Require Import ZArith List Bool NArith Lia.
 From Coq.Strings Require Import Byte String.
 From EsVerif.Common Require Import Base Bytes.
-From EsVerif.C01 Require Import Framing FramingProofs Model Spec Proofs.
+From EsVerif.C01 Require Import Framing FramingProofs Model Spec Layout LayoutProofs Proofs.
 Import ListNotations.
 Open Scope Z_scope.
 Open Scope list_scope.
@@ -67,5 +67,57 @@ Proof.
   - repeat constructor.
   - reflexivity.
   - vm_compute. reflexivity.
+  - vm_compute. reflexivity.
+Qed.
+
+(* ---- closed instances of the premises of the layout theorems *)
+Definition ex_dt1 : dtype :=
+  [{| f_name := B "b"; f_order := "|"%byte; f_kind := "u"%byte; f_size := 1; f_shape := [] |}].
+Definition w_contig : ndview :=
+  {| v_buf := [x01; x02; x03; x04]; v_start := 1; v_dims := [(2%nat, 1)]; v_item := 1 |}.
+
+Lemma layout_nonvacuous :
+  (* a strided view meets the premises of the any-layout round trip, and the round trip computes *)
+  (in_bounds w_strided = true /\ (1 <= view_size w_strided)%nat
+   /\ Z.of_nat (v_item w_strided) = rowsize ex_dt1 /\ 0 < rowsize ex_dt1
+   /\ recfile_read0 (recfile_write_view w_strided) ex_dt1 None = Ok [[x01]; [x03]]
+   /\ recfile_read0 (recfile_write_view_v0 w_strided) ex_dt1 None = Ok [[x01]; [x02]])
+  (* a C-contiguous view (not starting at the first byte of its buffer) meets the premises of
+     the contiguous case of the unrepaired writer *)
+  /\ (kf_noncontiguous_write w_contig = false /\ in_bounds w_contig = true /\ 0 <= v_start w_contig
+      /\ v_start w_contig + Z.of_nat (view_size w_contig * v_item w_contig) <= Z.of_nat (length (v_buf w_contig))
+      /\ recfile_write_view_v0 w_contig = [x02; x03]).
+Proof.
+  repeat split; try (vm_compute; reflexivity); try (vm_compute; intro X; discriminate X);
+    try (vm_compute; repeat constructor).
+Qed.
+
+(* ---- the premise user_hdr_ok of the round-trip theorem cannot be dropped: a user key _Delim
+   (a spelling of the reserved name that _make_header does not strip, but that the
+   case-insensitive _match_key of the reader takes for the delimiter) makes the reader treat
+   the file as text.  Everything else of the theorem's premises holds for this instance. *)
+Definition bad_hdr : hdict (list byte) := [(B "_Delim", B "','")].
+Definition bad_text : list byte := B "{'_DTYPE': [('x', '<i2')], '_Delim': ',', '_VERSION': '1.0'}".
+Definition bad_head := make_header (list byte) ex_vstr ex_vdescr bad_hdr ex_dt.
+Definition bad_pformat (_ : hdict (list byte)) : list byte := bad_text.
+Definition bad_pyeval (_ : list byte) : option (hdict (list byte)) := Some bad_head.
+
+Lemma roundtrip_needs_user_hdr_ok :
+  H_pf (list byte) eq bad_pformat bad_pyeval ex_np_dtype bad_head ex_dt
+  /\ ~ user_hdr_ok (list byte) bad_hdr
+  /\ ex_rows <> [] /\ rows_fit ex_dt ex_rows /\ 0 < rowsize ex_dt
+  /\ reserved (B "_Delim") = false
+  /\ sfile_read (list byte) ex_vstr dec ex_np_dtype bad_pyeval
+       (sfile_write (list byte) ex_vstr ex_vdescr bad_pformat bad_hdr ex_dt ex_rows) = Err EOther.
+Proof.
+  split; [|split; [|split; [|split; [|split; [|split]]]]].
+  - split; [reflexivity|]. exists bad_head. split; [reflexivity|]. split.
+    + intro k. destruct (dget (list byte) k bad_head); reflexivity || exact I.
+    + intros v _. reflexivity.
+  - intro U. specialize (U (B "_Delim") (or_introl eq_refl)). vm_compute in U. discriminate U.
+  - discriminate.
+  - repeat constructor.
+  - reflexivity.
+  - reflexivity.
   - vm_compute. reflexivity.
 Qed.
